@@ -107,7 +107,9 @@ func (p *Path) ensureInit(pkg *ssa.Package) {
 			}
 			p.inInit[pkg] = true
 			saved := p.depth
+			p.initDepth++
 			p.call(nil, token.NoPos, init, nil)
+			p.initDepth--
 			p.depth = saved
 		}
 		return
@@ -128,7 +130,9 @@ func (p *Path) ensureInit(pkg *ssa.Package) {
 			p.inInit = map[*ssa.Package]bool{}
 		}
 		p.inInit[pkg] = true
+		p.initDepth++
 		p.call(nil, token.NoPos, init, nil)
+		p.initDepth--
 		p.depth = saved
 	}
 }
@@ -422,9 +426,12 @@ func (p *Path) callSSA(caller *frame, callpos token.Pos, fn *ssa.Function, args 
 	for i, fv := range fn.FreeVars {
 		fr.env[fv] = env[i]
 	}
+	savedTop := p.top
+	p.top = fr
 	for fr.block != nil {
 		runFrame(fr)
 	}
+	p.top = savedTop
 	p.depth--
 	return fr.result
 }
@@ -456,18 +463,19 @@ func runFrame(fr *frame) {
 		}
 	}()
 	p := fr.p
+	p.top = fr
 	for {
 		if fr.visits == nil {
 			fr.visits = map[*ssa.BasicBlock]int{}
 		}
 		fr.visits[fr.block]++
-		if fr.visits[fr.block] > p.eng.cfg.MaxLoop {
+		if fr.visits[fr.block] > p.eng.cfg.MaxLoop && !p.isInitPath && p.initDepth == 0 {
 			p.abort("unwind", "loop bound %d exceeded in %s block %d (%s)", p.eng.cfg.MaxLoop, fr.fn, fr.block.Index, p.curPos(fr))
 		}
 		nonPhis := executePhis(fr)
 		for _, instr := range nonPhis {
 			p.steps++
-			if p.steps > p.eng.cfg.MaxSteps {
+			if p.steps > p.eng.cfg.MaxSteps && !p.isInitPath {
 				p.abort("unwind", "step budget %d exceeded in %s", p.eng.cfg.MaxSteps, fr.fn)
 			}
 			fr.cur = instr
